@@ -472,6 +472,8 @@ class Interp:
             if isinstance(base, dict):
                 if e["name"] in base:
                     return base[e["name"]]
+            if isinstance(base, Var) and e["name"].isdigit() and int(e["name"]) < len(base.fields):
+                return base.fields[int(e["name"])]      # a tuple struct built through its constructor
             if self.free_opaque and isinstance(base, Opaque):
                 return Opaque("%s.%s" % (base.tag, e["name"]))
             raise Unsupported("field %s of %r" % (e["name"], base))
@@ -584,9 +586,13 @@ class Interp:
             return ""
         if e.get("k") == "mcall" and (decl.startswith("alloc::str::<impl str>::") or decl.startswith("core::str::<impl str>::") or
                                       decl.startswith("alloc::string::String::") or decl.startswith("alloc::slice::<impl [") or
-                                      decl.startswith("alloc::str::<impl alloc::slice::Join")):
+                                      decl.startswith("alloc::str::<impl alloc::slice::Join")) and \
+                name in ("replace", "split", "contains", "starts_with", "ends_with", "len", "is_empty", "to_string", "to_owned", "as_str", "clone",
+                         "into_boxed_str", "chars", "bytes", "char_indices", "parse", "join", "concat"):
             v = self.ev(e["recv"], env, depth)
             args = [self.ev(a, env, depth) for a in e.get("args") or []]
+            if any(isinstance(x, Opaque) for x in args) or isinstance(v, Opaque):
+                v = None        # opaque operands: not modelled here (the generic handling below decides)
 
             def as_text(x):
                 if isinstance(x, Ch):
